@@ -267,6 +267,17 @@ func clientCases() []refCase {
 			id.Certs = append(id.Certs, pk.Attacker.Certificate[0])
 			id.SignKey = pk.OtherKey.D
 		}},
+		{name: "certificate list [victim's encipherment-only certificate, attacker's self-signed signing certificate], CertificateVerify by the attacker's key", ident: func(id *gmref.Identity) {
+			id.Certs = [][]byte{pk.ClientEnc.Certificate[0], pk.Attacker.Certificate[0]}
+			id.SignKey = pk.OtherKey.D
+		}},
+		{name: "certificate list [victim's signing certificate, victim's encipherment-only certificate, attacker's certificate], CertificateVerify by the attacker's key", ident: func(id *gmref.Identity) {
+			id.Certs = append(id.Certs, pk.ClientEnc.Certificate[0], pk.Attacker.Certificate[0])
+			id.SignKey = pk.OtherKey.D
+		}},
+		{name: "control: certificate list [signing certificate, encipherment-only certificate] with the genuine key", conformant: true, accept: all(true), ident: func(id *gmref.Identity) {
+			id.Certs = append(id.Certs, pk.ClientEnc.Certificate[0])
+		}},
 		{name: "certificate list [victim's certificate twice], CertificateVerify by the attacker's key", ident: func(id *gmref.Identity) {
 			id.Certs = append(id.Certs, id.Certs[0])
 			id.SignKey = pk.OtherKey.D
